@@ -1,12 +1,11 @@
 #!/bin/bash
-# usage: replay_all.sh [Cxx ...]  -- replays every saved violation under /verif/replays against /repo's current tree (4 at a time).
+# usage: replay_all.sh [Cxx ...]  -- replays every saved violation under /verif/replays against /repo's current tree.
+# Replays of one property share a scratch directory, so they run one after the other; four properties run side by side.
 # On a tree where the defects are repaired every replay must pass; replays of open findings may print KNOWN-FINDING.
 cd /verif || exit 2
 props="$@"
 [ -z "$props" ] && props=$(ls replays | sort)
 out=/verif/.work/logs/replay_all.txt
 : > $out
-for p in $props; do
-  ls -d replays/$p/*/ 2>/dev/null | while read d; do echo "$p $d"; done
-done | xargs -P 4 -L 1 bash -c 'p=$0; d=$1; r=$(VERIF_EVIDENCE_DIR=/tmp/replay_all_ev timeout 900 ./check $p --replay $d 2>&1 | tail -1 | cut -c1-160); case "$r" in *"replay passes"*|*"no disagreement"*|*"KNOWN-FINDING"*) echo "pass $d" ;; *) echo "FAIL $d :: $r" ;; esac' >> $out
-echo "$(grep -c '^pass' $out) pass, $(grep -c '^FAIL' $out) fail" | tee -a $out
+echo $props | tr ' ' '\n' | xargs -P 4 -I{} bash -c 'p={}; for d in replays/$p/*/; do [ -d "$d" ] || continue; d=${d%/}; r=$(VERIF_EVIDENCE_DIR=/tmp/replay_all_ev timeout 900 ./check $p --replay $d 2>&1 | tail -1 | cut -c1-160); sig=$(python3 -c "import json,sys; print(json.load(open(sys.argv[1])).get(\"sig\",\"\"))" $d/meta.json 2>/dev/null); if grep -q "\"status\": *\"open\".*\"sig\": *\"$sig\"" known_findings.jsonl 2>/dev/null && [ -n "$sig" ]; then echo "known $d ($sig)"; continue; fi; case "$r" in *"replay passes"*|*"no disagreement"*|*"KNOWN-FINDING"*|*"-> passes"*|*"passes on the current tree"*) echo "pass $d" ;; *) echo "FAIL $d :: $r" ;; esac; done' >> $out
+echo "$(grep -c '^pass' $out) pass, $(grep -c '^known' $out) replays of open findings, $(grep -c '^FAIL' $out) fail" | tee -a $out
